@@ -2,70 +2,82 @@
 
 Translator `batch_marks`: backends/__init__.py (ast) -> lean/EkwVerif/Gen/BackendMarks.lean,
 cross-checked with the `batchable` attribute the imported functions really carry.
-Tie: every backend operation, on NumPy arrays, xarray DataArrays and Datasets, against
-Model/Backend.lean (exact rationals; floats of the implementation are converted to the unique
-nearby fraction of small denominator, never compared as floats).
-Oracle (from the property text only): direct NumPy on the raw integer data, and for every
-function that carries the `batchable` attribute at run time the law
-f(f(batch_1), ..., f(batch_k)) == NumPy f(all) for every cut into consecutive batches.
+Tie: every backend operation, on NumPy arrays, xarray DataArrays and Datasets, of dtype int64 / int32 / uint8 / bool /
+float64, against Model/BackendRun.lean: error CAUSE, result dtype, shape, every value EXACTLY (integers as integers with
+NumPy's wrap-around, float64 bit for bit through Model/F64.lean) and the coordinate labels of xarray results.
+Oracle (from the property text only, harness/ekw/c15_oracle.py): direct NumPy on the raw data, exact, and for every
+function that carries the `batchable` attribute at run time the law f(f(batch_1), ..., f(batch_k)) == NumPy f(all) for
+every cut into consecutive batches (as reduce() forms them, and read literally).
+Helper modules: ekw/c15_real.py (real side, canonical forms), ekw/c15_oracle.py, ekw/c15_gen.py (generators).
 """
 import ast
-import itertools
 import json
-from fractions import Fraction
 
 import numpy as np
 
+from ekw.c15_real import (ALL_OPS, BINARY, REDUCTIONS, VARIADIC, arg_shape, canon_impl, canon_model, dtype_of, flat,
+                          map_vals, model_request, n_vars, py_kind, run_impl, same_canon, shape_of)
+from ekw.c15_oracle import mixed_presence, numpy_reference, oracle, same_values
+from ekw import c15_gen as G
+
 PROPERTY = "C15"
-LEVEL_TEXT = ("Lean theorems over Model/Backend.lean (exact arrays of any rank/shape over the rationals): sum, prod, min, max and concat "
-              "(any axis, any extents) satisfy f(f(b_1),...,f(b_k)) = f(all) for EVERY cut into >= 2 non-empty batches of any sizes "
-              "(singleton batches passed through, as fluent reduce does), by induction; mean, std, var and stack do not (concrete "
-              "witnesses); the @batchable marks read from the source on every run are sound, and exact for the nine variadic functions. "
-              "Agreement of the model with both real back ends and with NumPy is tied by a differential correspondence check.")
+LEVEL_TEXT = ("Lean theorems over Model/Backend.lean (arrays of any rank/shape over ANY element type with the dtype's arithmetic as a "
+              "parameter): sum, prod, min, max are batchable -- f(f(b_1),...,f(b_k)) = f(all) for EVERY cut into >= 2 non-empty batches, "
+              "singleton batches passed through as fluent reduce does -- for every dtype whose operation is associative, which is PROVED "
+              "for exact rationals, for NumPy's wrapping fixed-width integers (any width, signed or not), for bool, and (min/max) for "
+              "IEEE binary64 incl. NaN and infinities (Model/F64.lean: bit-exact +,-,*,/ with round-to-nearest-even); concat for every "
+              "element type; the law is REFUTED for float64 sum and prod (c15_sum_dtype_full_fails, c15_prod_dtype_full_fails: "
+              "rounding; known finding, witness replayed on the real code). The law read literally (every batch through f, k >= 1) is "
+              "proved for concat, proved for the reductions on the partitions without a single-array batch (c15_literal_partial) and "
+              "refuted otherwise (c15_literal_full_fails; known finding). mean, std, var and stack are not batchable (witnesses, also in "
+              "binary64); the @batchable marks read from the source on every run are sound for every associative dtype, exact for the "
+              "nine variadic functions, and not sound for float64 as the law is written (c15_marks_sound_f64_full_fails). NaN "
+              "propagation of the float64 reductions is a theorem (c15_nan_propagates). Clause (a) -- each operation returns NumPy's "
+              "value -- has no theorem: it is carried by the differential correspondence check (exact values, dtype, error cause, "
+              "coordinate labels) and the independent NumPy oracle.")
 LEVEL_NOTE = ("modelled, not verified: backends/__init__.py Backend.*, arrayapi.py ArrayAPIBackend.*, xarray.py XArrayBackend.* (value "
-              "semantics on integer data; NaN/inf, float inputs, integer overflow, broadcasting between different shapes, keepdims/ddof/"
-              "skipna kwargs, attrs and coordinate labels are outside the model); NumPy/xarray themselves are trusted; the FieldList "
-              "backend (earthkit.py) is not covered")
-TECHNIQUE = ("Lean 4 proof (induction over batch lists; pointwise lifting of scalar fold laws to arrays) + AST translator of the "
-             "@batchable marks + differential correspondence of both back ends with the model and with NumPy")
+              "semantics, result dtype, error causes, labels of results; dtypes int64/int32/uint8/uint64/bool/float64; mixed dtypes in "
+              "one call, keepdims/ddof/out kwargs, attrs, non-index coordinates and float pow with non-integer exponents are outside the "
+              "model); NumPy/xarray themselves are trusted, including NumPy's order of additions (left to right; pairwise for a flat "
+              "reduction of >= 8 elements, mirrored by vsumNp); the FieldList backend (earthkit.py) cannot be imported here and is not "
+              "covered")
+TECHNIQUE = ("Lean 4 proof (induction over batch lists; pointwise lifting of scalar fold laws to arrays; dtype arithmetic as a parameter; "
+             "binary64 decided by kernel evaluation) + AST translator of the @batchable marks + differential correspondence of both back "
+             "ends with the model and with NumPy")
 LEAN_PROPS = ["EkwVerif.Props.C15"]
 LEAN_DRIVERS = ["C15"]
-RULE = ("random cases: one of the 15 operations x backend (NumPy array / xarray DataArray / xarray Dataset with two variables, with or "
-        "without coordinates) x 1-6 integer arrays of rank 0-3 and extents 1-3 (values -4..4) x axis/dim argument (absent, every "
-        "position, negative, as name, out of range) x int / list / ndarray indices (incl. negative and out of range); for the variadic "
-        "reductions and concat additionally EVERY cut of the k arguments into >= 2 consecutive batches (2^(k-1)-1 cuts). "
-        "Every run also holds the axis sweep: every operation with an axis / dim argument (7 reductions, take, stack, concat) on every "
-        "backend with EVERY axis -ndim..ndim-1 (stack -(ndim+1)..ndim) on a 2-D and a 3-D array of pairwise different extents, for "
-        "xarray also every dimension by name; take with non-negative scalar, negative scalar, list and ndarray indices. "
-        "A fifth of the cases (every one of pow, multiply, add, subtract, sum, prod, max, min, stack, concat, take on every "
-        "backend, incl. scalar-operand, nested and multi-argument forms and all batch cuts) carry int64 magnitudes around 2^53, "
-        "around powers of two and near the largest value for which the exact result (and every partial result) still fits in "
-        "int64; integer results are compared exactly as Python ints (never through float64) and the integer-ness of the result "
-        "dtype must equal NumPy's. "
+RULE = ("every run: the witnesses of the known findings and of this round's fixes; every one of the 15 operations on every container "
+        "(ndarray / DataArray / Dataset) twice with int64 data and once with each of float64, int32, uint8, bool; int64 magnitudes around 2^53 and the int64 "
+        "limits; the axis sweep (every axis / dim value, by position, negative, by name, on 2-D and 3-D arrays of pairwise different "
+        "extents). Random mix of the first generation (1-6 integer arrays of rank 0-3, extents 1-3, every axis form, int / list / ndarray "
+        "indices) and of the second: dtypes float64 (small integers, dyadic, values that round, NaN / +-inf), int32 and uint8 near their "
+        "limits (wrap-around), bool, Python int / float scalar operands incl. ones that do not fit; coordinate labels identical / on some "
+        "dimensions / on some operands / shifted / permuted / partially overlapping; broadcasting shapes (different ranks, extents 1) "
+        "in binary operations, stack and multi-argument reductions; tuple / list axes incl. empty and duplicate; zero extents; take with "
+        "0-d and NumPy-scalar indices, NumPy-integer dim, missing dim, dimension name on a plain array, method=sel incl. missing labels, "
+        "empty index lists; mixed ndarray / DataArray arguments; a decoy axis / dim with several arguments; stack onto an existing and "
+        "concat along a missing dimension; Datasets whose variables differ in dims and dtype. For the variadic functions EVERY cut of the "
+        "k arguments into >= 2 consecutive batches, and for the marked ones a sample of cuts (and the one-batch partition) read literally. "
         "non-trivial = the arguments hold >= 2 distinct values and (k >= 2 or rank >= 1); distinct by content hash of the case")
 ASSUMPTIONS = [
-    "integer input data (int64) such that no exact result or partial result leaves int64 (magnitudes up to 2^63-1 are generated "
-    "for the operations whose NumPy result is an integer; mean/std/var/divide only see small values); divisors non-zero; no NaN/inf; "
-    "exponents of pow are integers",
-    "floats returned by the implementation (mean/std/var/divide) are mapped to the nearest fraction with denominator <= 10^6 and must "
-    "be within 1e-9 of it (std: its square); the NumPy oracle compares floats with rtol=atol=1e-12",
-    "arguments of one call have equal shapes (concat: equal except along the axis); a Python scalar is allowed as one operand of the "
-    "binary operations; xarray operands of one call carry identical coordinates",
-    "take indices are an int, a list or an ndarray (a tuple is not an 'Array of int': xarray rejects it)",
+    "all array arguments of one call have one dtype out of int64, int32, uint8, bool, float64 (the two variables of a Dataset may "
+    "differ); a Python int / float scalar is allowed as one operand of the binary operations (not with bool arrays); exponents of pow "
+    "are integers and float pow is generated only where the exact power is representable or 1/representable",
+    "float64 is compared bit for bit (the sign of zero is ignored, all NaNs are one NaN); where NumPy's order of additions is not "
+    "known to the model (tuple axes of var/std/mean, marked approx in the case) model and implementation are compared within 16 ulp",
+    "xarray operands are named by position, right-aligned (d(R-r)..d(R-1)); an xarray result is compared after sorting its d-dimensions "
+    "by number (xarray orders the dimensions of a broadcast result by first appearance)",
+    "labelled operands whose labels differ along a shared dimension (or, for concat, are present on only some operands along the joined "
+    "dimension) are not 'the same data' as any plain arrays: the backend must return NumPy's positional value or refuse with an "
+    "alignment error; any other value is a violation (misaligned-value)",
+    "take indices are an int, a NumPy integer, a 0-d / 1-d integer ndarray or a list (a tuple is not an 'Array of int': xarray rejects it)",
     "an axis beyond the rank is passed to stack only on the NumPy backend (XArrayBackend.stack clamps it silently; error behaviour is "
     "not part of the property)",
-    "a Dataset is checked variable by variable (each variable has all dimensions)",
-    "the law is stated over batches as reduce() forms them (>= 2 batches, singleton batch passed through); the literal variant "
-    "'singleton through f' is only measured (distribution key literal_singleton_*)",
+    "a Dataset is checked variable by variable; a variable that lacks the dimension a call acts on must come back unchanged; concat "
+    "along a dimension one variable lacks and axis= on a Dataset are not generated / not judged (no NumPy counterpart)",
+    "calls that have no NumPy counterpart (take without dim, a dimension name on a plain array, stack onto an existing dimension, concat "
+    "along a missing one) are compared with the model only",
 ]
-
-REDUCTIONS = ["mean", "std", "max", "min", "sum", "prod", "var"]
-BINARY = ["add", "subtract", "multiply", "divide", "pow"]
-VARIADIC = REDUCTIONS + ["stack", "concat"]
-ALL_OPS = VARIADIC + BINARY + ["take"]
-NP_NAME = {"pow": "power", "concat": "concatenate"}
-FLOAT_OPS = {"mean", "std", "var", "divide"}
-
 
 # ----------------------------------------------------------------------------- translator
 
@@ -139,660 +151,27 @@ def translate(ctx):
     ctx.extra["batch_marks"] = {n: b for n, b in marks}
 
 
-# ----------------------------------------------------------------------------- real side
-
-def _shape_of(a):
-    s = []
-    while isinstance(a, list):
-        s.append(len(a))
-        a = a[0] if a else None
-    return s
-
-
-def _wrap(raw, case, raw2=None):
-    """raw nested list (or int) -> object of the case's backend."""
-    import xarray as xr
-    if isinstance(raw, int) and case["op"] in BINARY:
-        return raw          # Python scalar operand
-    a = np.array(raw, dtype=np.int64)
-    be = case["backend"]
-    if be == "np":
-        return a
-    dims = ["d%d" % i for i in range(a.ndim)]
-    coords = {d: list(range(10, 10 + n)) for d, n in zip(dims, a.shape)} if case.get("coords") else None
-    da = xr.DataArray(a, dims=dims, coords=coords)
-    if be == "da":
-        return da
-    b = np.array(raw2, dtype=np.int64)
-    return xr.Dataset({"u": da, "v": xr.DataArray(b, dims=dims, coords=coords)})
-
-
-def _kwargs(case, nd):
-    """kwargs of the real call (nd = rank of the first array operand)."""
-    op, be, ax, style = case["op"], case["backend"], case.get("axis"), case.get("style", "axis")
-    xr_ = be != "np"
-    if op in REDUCTIONS:
-        if ax is None:
-            return {}
-        if xr_ and style == "dim":
-            return {"dim": "d%d" % ax}
-        return {"axis": ax}
-    if op == "stack":
-        kw = {"dim": "new"} if xr_ else {}
-        if ax is not None:
-            kw["axis"] = ax
-        return kw
-    if op == "concat":
-        if xr_:
-            return {"dim": "d%d" % ((ax or 0) % max(nd, 1))}
-        return {} if ax is None else {"axis": ax}
-    if op == "take":
-        if xr_ and style == "dim":
-            return {"dim": "d%d" % ax}
-        return {"dim": ax}
-    return {}
-
-
-def _call(case, objs):
-    from earthkit.workflows import backends
-    op = case["op"]
-    f = getattr(backends, op)
-    first = next((o for o in objs if not isinstance(o, int)), None)
-    nd = len(first.sizes) if hasattr(first, "sizes") and not isinstance(first, np.ndarray) else np.ndim(first)
-    kw = _kwargs(case, nd)
-    if op == "take":
-        ix = case["index"]
-        if case.get("index_type") == "ndarray":
-            ix = np.array(ix, dtype=np.int64)
-        return f(objs[0], ix, **kw)
-    if op in BINARY and case.get("nested"):
-        return f(list(objs), **kw)
-    return f(*objs, **kw)
-
-
-def _unpack(res, case):
-    """result object -> list of ndarrays (one per Dataset variable)."""
-    be = case["backend"]
-    import xarray as xr
-    if isinstance(res, xr.Dataset):
-        return [np.asarray(res["u"].values), np.asarray(res["v"].values)]
-    if isinstance(res, xr.DataArray):
-        return [np.asarray(res.values)]
-    if be == "ds":
-        raise TypeError("Dataset in, %s out" % type(res).__name__)
-    return [np.asarray(res)]
-
-
-def run_impl(case):
-    """Real code on one case -> ('ok', [ndarray per variable]) | ('error', text)."""
-    try:
-        raws2 = case.get("args2") or [None] * len(case["args"])
-        objs = [_wrap(r, case, r2) for r, r2 in zip(case["args"], raws2)]
-        batches = case.get("batches")
-        if batches:
-            mids, k = [], 0
-            for n in batches:
-                chunk = objs[k:k + n]
-                k += n
-                mids.append(chunk[0] if n == 1 else _call(case, chunk))
-            res = _call(case, mids)
-        else:
-            res = _call(case, objs)
-        return "ok", _unpack(res, case)
-    except Exception as e:   # a result, never a crash of the check
-        return "error", "%s: %s" % (type(e).__name__, str(e)[:120])
-
-
-# ----------------------------------------------------------------------------- canonical form (exact)
-
-def _frac(x, square):
-    if isinstance(x, (bool, np.bool_)):
-        return "bool"
-    if isinstance(x, (int, np.integer)):
-        v = Fraction(int(x))
-        return v * v if square else v
-    x = float(x)
-    if not np.isfinite(x):
-        return "nonfinite"
-    if square and x < 0:
-        return "negative-std"
-    y = x * x if square else x
-    f = Fraction(y).limit_denominator(10 ** 6)
-    if abs(float(f) - y) > 1e-9 * max(1.0, abs(y)):
-        return "inexact:%r" % x
-    return f
-
-
-def canon_impl(status, val, op):
-    if status == "error":
-        return ["error"]
-    sq = op == "std"
-    return [{"shape": list(a.shape), "data": [_frac(x, sq) for x in a.reshape(-1).tolist()]} for a in val]
-
-
-def canon_model(line):
-    o = json.loads(line)
-    if isinstance(o, dict) and o.get("error"):
-        return "error"
-    if not isinstance(o, dict) or "shape" not in o:
-        return "driver:%r" % (o,)
-    return {"shape": o["shape"], "data": [Fraction(n, d) for n, d in o["data"]]}
-
-
-def model_lines(case):
-    """One driver line per variable."""
-    ax = case.get("axis")
-    out = []
-    for key in ("args", "args2"):
-        if key == "args2" and not case.get("args2"):
-            continue
-        out.append(json.dumps({"op": case["op"], "args": case[key], "axis": ax, "index": case.get("index"),
-                               "batches": case.get("batches")}))
-    return out
-
-
-def _show(c):
-    if isinstance(c, dict):
-        return {"shape": c["shape"], "data": [str(x) for x in c["data"]]}
-    return c
-
-
-# ----------------------------------------------------------------------------- oracle: direct NumPy
-
-def numpy_reference(case, key="args"):
-    """What NumPy gives for the same data, axis and indices (the unbatched computation)."""
-    op = case["op"]
-    arrs = [np.array(a, dtype=np.int64) for a in case[key]]
-    ax = case.get("axis")
-    f = getattr(np, NP_NAME.get(op, op))
-    if op in REDUCTIONS:
-        if len(arrs) >= 2:
-            return f(np.stack(arrs), axis=0)
-        return f(arrs[0], axis=ax)
-    if op == "stack":
-        return np.stack(arrs, axis=0 if ax is None else ax)
-    if op == "concat":
-        return np.concatenate(arrs, axis=0 if ax is None else ax)
-    if op in BINARY:
-        if len(arrs) != 2:
-            raise ValueError("two operands expected")
-        return f(arrs[0], arrs[1])
-    if op == "take":
-        return np.take(arrs[0], case["index"], axis=ax)
-    raise ValueError(op)
-
-
-def _same(got, exp):
-    got, exp = np.asarray(got), np.asarray(exp)
-    if got.shape != exp.shape:
-        return "shape %s, NumPy gives %s" % (got.shape, exp.shape)
-    if exp.dtype.kind in "iu":      # integer result: exact, as Python ints (never through float64: a float equals an int
-        # in Python only if it has exactly that value, whereas NumPy would first round the int64 to float64)
-        if got.dtype.kind not in "iuf" or got.reshape(-1).tolist() != exp.reshape(-1).tolist():
-            return "values %s, NumPy gives %s" % (got.tolist(), exp.tolist())
-        return None
-    if not np.allclose(got.astype(float), exp.astype(float), rtol=1e-12, atol=1e-12, equal_nan=False):
-        return "values %s, NumPy gives %s" % (got.tolist(), exp.tolist())
-    return None
-
-
-def _dtype_diff(got, exp):
-    """integer data in: the result is of an integer type exactly when NumPy's is"""
-    got, exp = np.asarray(got), np.asarray(exp)
-    if (got.dtype.kind in "iu") != (exp.dtype.kind in "iu"):
-        return "result dtype %s, NumPy gives %s" % (got.dtype, exp.dtype)
-    return None
-
-
-def oracle(case, status, val):
-    """Property oracle on one (possibly batched) case. Returns None or (signature, what)."""
-    op, be = case["op"], case["backend"]
-    batched = bool(case.get("batches"))
-    if batched:
-        from earthkit.workflows import backends
-        if not getattr(getattr(backends, op), "batchable", False):
-            return None                      # the law is claimed only for marked functions
-    kind = "batch-law" if batched else "value"
-    keys = ["args"] + (["args2"] if case.get("args2") else [])
-    for vi, key in enumerate(keys):
-        try:
-            exp = numpy_reference(case, key)
-        except Exception as e:
-            if status == "error":
-                continue
-            if batched:
-                continue                     # NumPy itself rejects f(all): nothing is claimed
-            return ({"kind": "no-error", "op": op, "backend": be},
-                    "%s on %s: NumPy raises %s for these arguments, the backend returned a value" % (op, be, type(e).__name__))
-        if status == "error":
-            return ({"kind": kind if batched else "error", "op": op, "backend": be},
-                    "%s on %s%s raised %s where NumPy computes %s" % (op, be, " batched %s" % case["batches"] if batched else "", val, np.asarray(exp).tolist()))
-        diff = _same(val[vi], exp)
-        if diff:
-            what = "%s on %s" % (op, be)
-            if batched:
-                what += ", marked batchable: batches %s reduced first give %s" % (case["batches"], diff)
-            else:
-                what += " (axis=%s index=%s): %s" % (case.get("axis"), case.get("index"), diff)
-            return ({"kind": kind, "op": op, "backend": be}, what)
-        dd = _dtype_diff(val[vi], exp)
-        if dd:
-            return ({"kind": "dtype", "op": op, "backend": be},
-                    "%s on %s%s for int64 input: %s" % (op, be, " batched %s" % case["batches"] if batched else "", dd))
-    return None
-
-
-# ----------------------------------------------------------------------------- generator
-
-def _rand(rng, shape, lo, hi, nonzero=False):
-    if not shape:
-        v = rng.randint(lo, hi)
-        while nonzero and v == 0:
-            v = rng.randint(lo, hi)
-        return v
-    return [_rand(rng, shape[1:], lo, hi, nonzero) for _ in range(shape[0])]
-
-
-def compositions(k):
-    """all cuts of k items into >= 2 consecutive non-empty batches"""
-    out = []
-    for m in range(1, 2 ** (k - 1)):
-        sizes, run = [], 1
-        for bit in range(k - 1):
-            if m >> bit & 1:
-                sizes.append(run)
-                run = 1
-            else:
-                run += 1
-        sizes.append(run)
-        out.append(sizes)
-    return out
-
-
-def gen_case(rng, op=None, backend=None):
-    op = op or rng.choice(REDUCTIONS * 2 + ["stack", "stack", "concat", "concat", "concat"] + BINARY + ["take"] * 4)
-    be = backend or rng.choice(["np", "np", "da", "da", "ds"])
-    case = {"op": op, "backend": be, "coords": be != "np" and rng.random() < 0.4}
-    xr_ = be != "np"
-    lo, hi = (-2, 2) if op == "prod" else (-4, 4)
-
-    def shapes(nd):
-        return [rng.randint(1, 3) for _ in range(nd)]
-
-    if op in REDUCTIONS:
-        k = rng.randint(1, 6)
-        if k == 1:
-            nd = rng.randint(0, 3) if rng.random() < 0.1 else rng.randint(1, 3)
-            r = rng.random()
-            if nd == 0 or r < 0.2:
-                case["axis"] = None
-            elif r < 0.24:
-                case["axis"] = nd                      # out of range
-                case["style"] = "dim" if be == "ds" or (xr_ and rng.random() < 0.7) else "axis"
-            else:
-                ax = rng.randrange(nd)
-                # (xarray refuses `axis=` on a Dataset: only `dim=` there)
-                if be == "ds" or (xr_ and rng.random() < 0.7):
-                    case["style"] = "dim"
-                else:
-                    case["style"] = "axis"
-                    if rng.random() < 0.35:
-                        ax -= nd
-                case["axis"] = ax
-        else:
-            nd = rng.randint(0, 3)
-            case["axis"] = None
-            if nd >= 1 and not xr_ and rng.random() < 0.2:
-                case["axis"] = rng.randrange(nd)       # decoy: overwritten by the backend
-                case["style"] = "axis"
-            # (xarray: a decoy `dim=` is overwritten too, a decoy `axis=` is rejected by xarray itself)
-            elif nd >= 1 and xr_ and rng.random() < 0.2:
-                case["axis"] = rng.randrange(nd)
-                case["style"] = "dim"
-        sh = shapes(nd)
-        case["args"] = [_rand(rng, sh, lo, hi) for _ in range(k)]
-    elif op == "stack":
-        k = rng.randint(1, 6)
-        nd = rng.randint(0, 2)
-        r = rng.random()
-        if r < 0.15:
-            case["axis"] = None
-        elif r < 0.2 and not xr_:
-            case["axis"] = nd + 1                      # out of range (NumPy backend only, see ASSUMPTIONS)
-        else:
-            case["axis"] = rng.randint(-(nd + 1), nd)
-        sh = shapes(nd)
-        case["args"] = [_rand(rng, sh, lo, hi) for _ in range(k)]
-    elif op == "concat":
-        k = rng.randint(1, 6)
-        nd = rng.randint(1, 3)
-        ax = rng.randrange(nd)
-        sh = shapes(nd)
-        args = []
-        for _ in range(k):
-            s = list(sh)
-            s[ax] = rng.randint(1, 3)
-            args.append(_rand(rng, s, lo, hi))
-        if not xr_:
-            r = rng.random()
-            if ax == 0 and r < 0.3:
-                ax = None
-            elif r < 0.35:
-                ax -= nd
-        case["axis"] = ax
-        case["args"] = args
-    elif op in BINARY:
-        nd = rng.randint(1, 3) if rng.random() < 0.9 else 0
-        sh = shapes(nd)
-        form = rng.choice(["aa", "aa", "as", "sa"])
-        if nd == 0:
-            form = "aa"
-        blo, bhi = lo, hi
-        alo, ahi = lo, hi
-        if op == "pow":
-            alo, ahi, blo, bhi = -3, 3, 0, 3
-            if rng.random() < 0.04:
-                blo = -2                                   # a negative exponent: both NumPy and the backends raise
-        nz = op == "divide"
-        a = _rand(rng, sh, alo, ahi)
-        b = _rand(rng, sh, blo, bhi, nz)
-        if form == "as":
-            b = _rand(rng, [], blo, bhi, nz)
-        elif form == "sa":
-            a = _rand(rng, [], alo, ahi)
-        if nd == 0 and form == "aa":
-            # two rank-0 arrays cannot be told from scalars in the case encoding: use 1-element vectors
-            a, b = [a], [b]
-        case["args"] = [a, b]
-        case["nested"] = rng.random() < 0.25
-    else:  # take
-        nd = rng.randint(1, 3)
-        sh = shapes(nd)
-        ax = rng.randrange(nd)
-        n = sh[ax]
-        if xr_ and rng.random() < 0.3:
-            case["style"] = "dim"
-        elif rng.random() < 0.3:
-            ax -= nd
-        case["axis"] = ax
-
-        def one():
-            if rng.random() < 0.04:
-                return rng.choice([n, -n - 1])            # out of range
-            return rng.randint(-n, n - 1)
-        if rng.random() < 0.45:
-            case["index"] = one()
-            case["index_type"] = "int"
-        else:
-            case["index"] = [one() for _ in range(rng.randint(1, 3))]
-            case["index_type"] = rng.choice(["list", "ndarray"])
-        case["args"] = [_rand(rng, sh, lo, hi)]
-    if be == "ds":
-        def other(a):
-            if isinstance(a, int):
-                return a if op in BINARY else rng.randint(lo, hi)
-            return [other(x) for x in a]
-        if op in ("divide", "pow"):
-            case["args2"] = [other(case["args"][0]), case["args"][1]]   # keep divisor / exponent in the domain
-        else:
-            case["args2"] = [other(a) for a in case["args"]]
-    return case
-
-
-# --- integer magnitudes near and beyond 2^53 (exact in int64, not representable in float64) -----------------------
-# The shapes / axis / index / backend structure comes from gen_case; only the VALUES are replaced, chosen per operation
-# so that the exact result and every intermediate result of a batched evaluation fit in int64 (no overflow).
-
-I64 = 2 ** 63 - 1
-P53 = 2 ** 53
-BIG_OPS = ["pow", "multiply", "add", "subtract", "sum", "prod", "max", "min", "stack", "concat", "take"]
-
-
-def _iroot(n, m):
-    """largest b with b**m <= n"""
-    if m <= 1:
-        return n
-    b = int(round(n ** (1.0 / m)))
-    while b ** m > n:
-        b -= 1
-    while (b + 1) ** m <= n:
-        b += 1
-    return b
-
-
-def _bigval(rng, bound):
-    """an integer of magnitude <= bound: around 2^53, near the bound, around a power of two, or small"""
-    r = rng.random()
-    if r < 0.3:
-        v = P53 + rng.randint(-4, 12)
-    elif r < 0.65:
-        v = rng.randint(bound - bound // 3, bound)
-    elif r < 0.9:
-        v = (1 << rng.randint(0, max(bound.bit_length() - 1, 0))) + rng.randint(-3, 3)
-    else:
-        v = rng.randint(0, 9)
-    v = max(0, min(v, bound))
-    return -v if rng.random() < 0.4 else v
-
-
-def _pow_exp(rng, base):
-    """an exponent e >= 0 with |base|^e <= I64: near the largest one, around the 2^53 crossing, or any"""
-    m = abs(base)
-    if m <= 1:
-        return rng.randint(0, 62)
-    emax, e53 = 0, None
-    while m ** (emax + 1) <= I64:
-        emax += 1
-        if e53 is None and m ** emax > P53:
-            e53 = emax
-    pick = [emax, emax, max(emax - 1, 0), rng.randint(0, emax)]
-    if e53 is not None:
-        pick += [e53, e53, max(e53 - 1, 0)]
-    return rng.choice(pick)
-
-
-def _pow_base(rng, e=None):
-    """a base for exponent e (None: any; the exponent is then drawn by _pow_exp)"""
-    if e is None:
-        r = rng.random()
-        if r < 0.7:
-            b = rng.choice([2, 3, 3, 5, 6, 7, 7, 10, 11, 13, 15, 21, 0, 1])
-        elif r < 0.85:
-            b = rng.randint(2, 2000)
-        else:
-            b = _bigval(rng, _iroot(I64, rng.choice([1, 2, 2, 3, 4, 5])))
-    else:
-        bound = _iroot(I64, e) if e >= 1 else I64
-        b = _bigval(rng, bound) if rng.random() < 0.8 else rng.randint(0, min(bound, 12))
-    return -abs(b) if rng.random() < 0.3 else abs(b)
-
-
-def _mul_other(rng, a):
-    """b with |a*b| <= I64, preferably |a*b| > 2^53"""
-    if a == 0:
-        return _bigval(rng, I64)
-    return _bigval(rng, I64 // abs(a))
-
-
-def _pair(rng, op, a=None, b=None):
-    """operands (a, b) of one elementwise application; a given side (scalar operand of the call) is kept"""
-    if op == "pow":
-        if b is None and a is None:
-            a = _pow_base(rng)
-            return a, _pow_exp(rng, a)
-        if b is None:
-            return a, _pow_exp(rng, a)
-        return (_pow_base(rng, b) if a is None else a), b
-    if op == "multiply":
-        if a is None and b is None:
-            a = _bigval(rng, 1 << rng.randint(1, 62))
-        if b is None:
-            return a, _mul_other(rng, a)
-        return (_mul_other(rng, b) if a is None else a), b
-    bound = 2 ** 62 - 1                # add / subtract: any two such values give a result inside int64
-    return (_bigval(rng, bound) if a is None else a), (_bigval(rng, bound) if b is None else b)
-
-
-def _fill_binary(rng, op, a, b):
-    """new values for the operand structures a, b (nested list or int), elementwise compatible"""
-    if isinstance(a, list) and isinstance(b, list):
-        ps = [_fill_binary(rng, op, x, y) for x, y in zip(a, b)]
-        return [p[0] for p in ps], [p[1] for p in ps]
-    if isinstance(a, list):
-        return [_fill_binary(rng, op, x, b)[0] for x in a], b
-    if isinstance(b, list):
-        return a, [_fill_binary(rng, op, a, y)[1] for y in b]
-    return _pair(rng, op, a, b)
-
-
-def _numel(sh):
-    n = 1
-    for x in sh:
-        n *= x
-    return n
-
-
-def gen_big_case(rng, op=None, backend=None):
-    op = op or rng.choice(BIG_OPS + ["pow", "multiply", "sum", "prod"])
-    case = gen_case(rng, op, backend)
-    case["big"] = True
-    keys = ["args"] + (["args2"] if case.get("args2") else [])
-    if op in BINARY:
-        a0, b0 = case["args"]
-        # the scalar operand (if any) is one value for the whole call (and both Dataset variables)
-        sa = sb = None
-        if not isinstance(a0, list):
-            sa = _pow_base(rng) if op == "pow" else _bigval(rng, 1 << rng.randint(1, 40)) if op == "multiply" else _bigval(rng, 2 ** 62 - 1)
-        if not isinstance(b0, list):
-            sb = rng.choice([0, 1, 2, 2, 3, 3, 4, 5, 7, 13, 31, 62]) if op == "pow" else \
-                _bigval(rng, 1 << rng.randint(1, 40)) if op == "multiply" else _bigval(rng, 2 ** 62 - 1)
-        for key in keys:
-            blank = lambda x: _map_vals(x, lambda v: None)      # None = draw this element anew
-            a, b = _fill_binary(rng, op, blank(a0) if sa is None else sa, blank(b0) if sb is None else sb)
-            case[key] = [a, b]
-        return case
-    # number of values that meet in one output element
-    k = len(case["args"])
-    sh = _shape_of(case["args"][0])
-    ax = case.get("axis")
-    if op in ("sum", "prod"):
-        if k >= 2:
-            m = k
-        elif ax is not None and -len(sh) <= ax < len(sh):
-            m = sh[ax]
-        else:
-            m = _numel(sh)
-        bound = I64 // max(m, 1) if op == "sum" else _iroot(I64, max(m, 1))
-    else:
-        bound = I64
-    for key in keys:
-        case[key] = [_map_vals(a, lambda v: _bigval(rng, bound)) for a in case[key]]
-    return case
-
-
-# --- every axis / dim value on arrays whose extents are all distinct ------------------------------------------------
-# A wrong axis shows only if the extents differ (shape) or the data is not symmetric; a negative axis other than -ndim
-# shows only from rank 2 on.  Every run holds, for every operation that takes an axis / dim argument, on every backend,
-# every axis from -ndim to ndim-1 (stack: -(ndim+1)..ndim) on a 2-D and a 3-D array with pairwise different extents;
-# for xarray objects also every dimension given by NAME; take with a non-negative scalar, a negative scalar, a list and
-# an ndarray of indices (negative ones among them).
-
-def axis_sweep(rng):
-    out = []
-
-    def add(case, lo=-4, hi=4):
-        be = case["backend"]
-        case["coords"] = be != "np" and rng.random() < 0.4
-        case["sweep"] = True
-        if be == "ds":
-            case["args2"] = [_map_vals(a, lambda v: rng.randint(lo, hi)) for a in case["args"]]
-        out.append(case)
-
-    for be in ("np", "da", "ds"):
-        xr_ = be != "np"
-        for nd in (2, 3):
-            sh = rng.sample([2, 3, 4], nd)
-            # (axis value, style): positions -nd..nd-1, and for xarray every dimension by name
-            forms = [(ax, "axis") for ax in range(-nd, nd)] + ([(ax, "dim") for ax in range(nd)] if xr_ else [])
-            for op in REDUCTIONS:
-                lo, hi = (-2, 2) if op == "prod" else (-4, 4)
-                for ax, style in forms:
-                    if be == "ds" and style == "axis":
-                        continue                      # xarray refuses `axis=` on a Dataset: only `dim=` there
-                    add({"op": op, "backend": be, "axis": ax, "style": style, "args": [_rand(rng, sh, lo, hi)]}, lo, hi)
-            for ax, style in forms:
-                n = sh[ax]
-                neg_or_not = lambda: rng.randint(-n, n - 1)
-                for index, itype in ((rng.randint(0, n - 1), "int"), (rng.randint(-n, -1), "int"),
-                                     ([neg_or_not() for _ in range(rng.randint(2, 3))] + [rng.randint(-n, -1)], "list"),
-                                     ([rng.randint(-n, -1)] + [neg_or_not() for _ in range(rng.randint(0, 2))], "ndarray")):
-                    add({"op": "take", "backend": be, "axis": ax, "style": style, "index": index, "index_type": itype,
-                         "args": [_rand(rng, sh, -4, 4)]})
-            for ax in range(-(nd + 1), nd + 1):
-                add({"op": "stack", "backend": be, "axis": ax, "args": [_rand(rng, sh, -4, 4) for _ in range(rng.randint(2, 3))]})
-            for ax in range(-nd, nd):
-                args = []
-                for _ in range(rng.randint(2, 3)):
-                    s2 = list(sh)
-                    s2[ax] = rng.randint(1, 3)
-                    args.append(_rand(rng, s2, -4, 4))
-                add({"op": "concat", "backend": be, "axis": ax, "args": args})
-    return out
-
-
-def nontrivial(case):
-    vals = set()
-
-    def walk(a):
-        if isinstance(a, list):
-            for x in a:
-                walk(x)
-        else:
-            vals.add(a)
-    for a in case["args"]:
-        walk(a)
-    return len(vals) >= 2 and (len(case["args"]) >= 2 or isinstance(case["args"][0], list))
-
-
-def derived(case):
-    """the batched variants of a case: every cut into >= 2 consecutive batches"""
-    if case["op"] not in VARIADIC or len(case["args"]) < 2:
-        return []
-    if case["op"] == "stack":
-        # not batchable (c15_stack_not_batchable): cut it only if the source marks it (oracle only)
-        from earthkit.workflows import backends
-        if not getattr(backends.stack, "batchable", False):
-            return []
-    out = []
-    for sizes in compositions(len(case["args"])):
-        c = dict(case)
-        c["batches"] = sizes
-        out.append(c)
-    return out
-
 
 # ----------------------------------------------------------------------------- shrinking
 
-def _map_vals(a, f):
-    return [_map_vals(x, f) for x in a] if isinstance(a, list) else f(a)
+_PARALLEL = ("args", "args2", "shapes", "shapes2", "coords", "conts", "py")
 
 
-def _slice_axis(a, ax, n):
-    if ax == 0:
-        return a[:n]
-    return [_slice_axis(x, ax - 1, n) for x in a]
+def _drop_arg(case, i):
+    c = dict(case)
+    for key in _PARALLEL:
+        v = case.get(key)
+        if isinstance(v, list) and len(v) == len(case["args"]):
+            c[key] = v[:i] + v[i + 1:]
+    return c
 
 
 def _neighbours(case):
     k = len(case["args"])
-    keys = ["args"] + (["args2"] if case.get("args2") else [])
-    # drop one argument
-    minargs = 2 if (case.get("batches") or case["op"] in BINARY) else 1
+    minargs = 2 if (case.get("batches") or case["op"] in BINARY or case.get("conts")) else 1
     if k > minargs:
         for i in range(k):
-            c = dict(case)
-            for key in keys:
-                c[key] = case[key][:i] + case[key][i + 1:]
+            c = _drop_arg(case, i)
             if case.get("batches"):
                 sizes, pos = list(case["batches"]), 0
                 for bi, n in enumerate(sizes):
@@ -801,50 +180,51 @@ def _neighbours(case):
                         break
                     pos += n
                 sizes = [s for s in sizes if s > 0]
-                if len(sizes) < 2:
+                if len(sizes) < (1 if case.get("literal") else 2):
                     continue
                 c["batches"] = sizes
             yield c
-    # shorten one axis of every array argument
-    sh = next((_shape_of(a) for a in case["args"] if isinstance(a, list)), [])
-    for ax, n in enumerate(sh):
-        if n > 1 and not (case["op"] == "concat"):
-            c = dict(case)
-            for key in keys:
-                c[key] = [_slice_axis(a, ax, n - 1) if isinstance(a, list) else a for a in case[key]]
-            yield c
     # smaller values
-    for key in keys:
+    for key in ("args", "args2"):
+        if not case.get(key):
+            continue
         for i in range(k):
-            for f in (lambda v: 0, lambda v: v // 2 if v > 0 else -((-v) // 2)):
-                na = _map_vals(case[key][i], f)
+            def small(v, how):
+                if isinstance(v, str) or isinstance(v, bool):
+                    return v
+                if how == 0:
+                    return type(v)(0)
+                if isinstance(v, float):
+                    return float(int(v / 2))
+                return v // 2 if v > 0 else -((-v) // 2)
+            for how in (0, 1):
+                na = map_vals(case[key][i], lambda v: small(v, how))
                 if na != case[key][i]:
                     c = dict(case)
                     c[key] = case[key][:i] + [na] + case[key][i + 1:]
                     yield c
-    if case.get("coords"):
+    if case.get("coords") is True:
         c = dict(case)
         c["coords"] = False
         yield c
 
 
-def _flat(a):
-    return [v for x in a for v in _flat(x)] if isinstance(a, list) else [a]
-
-
 def _in_domain(c, orig):
-    """shrinking must not leave the domain of the generator (no zero divisor, no new negative exponent)"""
+    """shrinking must not leave the domain of the generator (no new zero divisor, no new negative exponent)"""
     for key in ("args", "args2"):
         if not c.get(key):
             continue
-        if c["op"] == "divide" and 0 in _flat(c[key][1]):
-            return False
-        if c["op"] == "pow" and min(_flat(c[key][1])) < min(0, min(_flat(orig[key][1]))):
-            return False
+        if c["op"] == "divide" and dtype_of(c, key) != "f64" and dtype_of(orig, key) != "f64":
+            if 0 in flat(c[key][1]) and 0 not in flat(orig[key][1]):
+                return False
+        if c["op"] == "pow":
+            num = lambda a: [v for v in flat(a) if not isinstance(v, str)]
+            if num(c[key][1]) and min(num(c[key][1])) < min([0] + num(orig[key][1])):
+                return False
     return True
 
 
-def shrink(case, sig, budget=300):
+def shrink(case, sig, budget=200):
     def fails(c):
         if not _in_domain(c, case):
             return False
@@ -869,96 +249,125 @@ def shrink(case, sig, budget=300):
 
 # ----------------------------------------------------------------------------- the check
 
-def _literal_singleton(ctx, case):
-    """Measured, not judged: the law read literally (a singleton batch is put through f as well)."""
-    from earthkit.workflows import backends
-    if not getattr(getattr(backends, case["op"]), "batchable", False) or 1 not in case["batches"]:
-        return
-    try:
-        objs = [_wrap(r, case) for r in case["args"]]
-        if case["backend"] == "ds":
-            return
-        mids, k = [], 0
-        for n in case["batches"]:
-            mids.append(_call(case, objs[k:k + n]))
-            k += n
-        got = _unpack(_call(case, mids), case)[0]
-        exp = numpy_reference(case)
-        ctx.count("literal_singleton_agrees" if _same(got, exp) is None else "literal_singleton_differs")
-    except Exception:
-        ctx.count("literal_singleton_raises")
-
-
 def _cases(ctx, n):
     import glob
     from ekw.core import CORPUS_DIR
+    rng = ctx.rng
     cases = []
     for f in sorted(glob.glob(str(CORPUS_DIR / "C15_*.json"))):
         try:
             cases.append(json.load(open(f))["case"])
         except Exception:
             ctx.notes.append("unreadable corpus file " + f)
-    # every operation on every backend at least twice, then the random mix
+    cases += G.witnesses()
+    # every operation on every container at least twice with int64 and once with every other dtype, then the random mix
     for op in ALL_OPS:
         for be in ("np", "da", "ds"):
             for _ in range(2):
-                cases.append(gen_case(ctx.rng, op, be))
-    # integer magnitudes around and beyond 2^53 (exact in int64 only): every such operation on every backend
-    for op in BIG_OPS:
+                cases.append(G.gen_case(rng, op, be))
+            for dt in ("f64", "i32", "u8", "bool"):
+                if not (dt == "bool" and op == "pow"):
+                    cases.append(G.gen_typed(rng, op, be, dt))
+    # float64 with NaN / inf and with values that round: every reduction and binary operation on every container
+    for op in REDUCTIONS + BINARY:
         for be in ("np", "da", "ds"):
-            for _ in range(ctx.budget(4, 30)):
-                cases.append(gen_big_case(ctx.rng, op, be))
+            cases.append(G.gen_typed(rng, op, be, "f64", "special"))
+            cases.append(G.gen_typed(rng, op, be, "f64", "round"))
+    # the batch law on every dtype for every marked function
+    for op in ("sum", "prod", "min", "max", "concat"):
+        for dt in ("f64", "u8", "i32", "bool"):
+            for _ in range(ctx.budget(1, 6)):
+                cases.append(G.gen_batch(rng, op, None, dt))
+    # integer magnitudes around and beyond 2^53 (exact in int64 only): every such operation on every backend
+    for op in G.BIG_OPS:
+        for be in ("np", "da", "ds"):
+            for _ in range(ctx.budget(2, 30)):
+                cases.append(G.gen_big_case(rng, op, be))
     for _ in range(ctx.budget(1, 4)):
-        cases += axis_sweep(ctx.rng)
-    # the random mix (the sweeps above come on top of it)
-    for _ in range(max(0, n - 90)):
-        cases.append(gen_big_case(ctx.rng) if ctx.rng.random() < 0.15 else gen_case(ctx.rng))
+        cases += G.axis_sweep(rng)
+    fams = [(G.gen_typed, 8), (G.gen_coords, 5), (G.gen_take2, 4), (G.gen_broadcast, 5), (G.gen_axes, 3), (G.gen_empty, 3),
+            (G.gen_mixed, 2), (G.gen_decoy, 2), (G.gen_flags, 1), (G.gen_ds_dims, 3), (G.gen_batch, 3)]
+    pool = [f for f, w in fams for _ in range(w)]
+    for _ in range(n):
+        r = rng.random()
+        if r < 0.3:
+            cases.append(G.gen_big_case(rng) if rng.random() < 0.15 else G.gen_case(rng))
+        else:
+            cases.append(rng.choice(pool)(rng))
     return cases
+
+
+def _count_case(ctx, base):
+    ctx.count("op:" + base["op"])
+    ctx.count("backend:" + base["backend"])
+    ctx.count("k:%d" % len(base["args"]))
+    ctx.count("dtype:" + dtype_of(base))
+    ctx.count("family:" + base.get("fam", "big-int64" if base.get("big") else "axis-sweep" if base.get("sweep") else "first-generation"))
+    i0 = next((i for i in range(len(base["args"])) if py_kind(base, i) is None), 0)
+    sh = arg_shape(base, i0)
+    ctx.count("rank:%d" % len(sh))
+    if 0 in sh:
+        ctx.count("zero_extent")
+    ax = base.get("axis")
+    ctx.count("axis:" + ("absent" if ax is None else "tuple" if isinstance(ax, list) else "negative" if ax < 0
+                         else "name" if base.get("style") == "dim" else "position"))
+    co = base.get("coords")
+    if co:
+        ctx.count("with_coords")
+    if base["op"] == "take":
+        ctx.count("take_index:" + base["index_type"])
+        ctx.count("take_dimkind:" + (base.get("dimkind") or ("name" if base.get("style") == "dim" else "int")))
+    if base.get("sweep"):
+        ctx.count("axis_sweep")
+        ctx.count("axis_sweep:%s:rank%d:%s" % (base["backend"], len(sh), "by-name" if base.get("style") == "dim"
+                                               else "negative" if base["axis"] < 0 else "non-negative"))
+    if base.get("big"):
+        ctx.count("big_int64")
+        ctx.count("big_int64:" + base["op"])
+        if any(abs(v) > G.P53 for key in ("args", "args2") for a in (base.get(key) or []) for v in flat(a)):
+            ctx.count("big_operand_beyond_2^53")
+    if dtype_of(base) == "f64":
+        vals = [v for a in base["args"] for v in flat(a)]
+        if "nan" in vals:
+            ctx.count("f64_with_nan")
+        if "inf" in vals or "-inf" in vals:
+            ctx.count("f64_with_inf")
+    if base.get("v_drop") is not None:
+        ctx.count("dataset_vars_differ_in_dims")
+    if base.get("dtype2") and base.get("dtype2") != dtype_of(base):
+        ctx.count("dataset_vars_differ_in_dtype")
+    if any(py_kind(base, i) for i in range(len(base["args"]))):
+        ctx.count("python_scalar_operand")
+
+
+def nontrivial(case):
+    vals = set()
+    for a in case["args"]:
+        vals.update(str(v) for v in flat(a))
+    return len(vals) >= 2 and (len(case["args"]) >= 2 or isinstance(case["args"][0], list))
 
 
 def _evaluate(ctx, cases, with_model):
     """Run implementation + oracle on every case and its batched variants; optionally the model."""
     from earthkit.workflows import backends
     work = []           # (case, status, val)
-    reported = set()
+    reported = {}
     unmarked_fail = {}
     for base in cases:
-        variants = [base] + derived(base)
+        variants = [base] + G.derived(base, ctx.rng)
         ctx.case(base, nontrivial=nontrivial(base))
-        ctx.count("op:" + base["op"])
-        ctx.count("backend:" + base["backend"])
-        ctx.count("k:%d" % len(base["args"]))
-        a0 = next((a for a in base["args"] if isinstance(a, list)), None)
-        ctx.count("rank:%d" % len(_shape_of(a0)))
-        ax = base.get("axis")
-        ctx.count("axis:" + ("absent" if ax is None else "negative" if ax < 0 else "name" if base.get("style") == "dim" else "position"))
-        if base.get("coords"):
-            ctx.count("with_coords")
-        if base["op"] == "take":
-            ctx.count("take_index:" + base["index_type"])
-        if base.get("sweep"):
-            ctx.count("axis_sweep")
-            ctx.count("axis_sweep:%s:rank%d:%s" % (base["backend"], len(_shape_of(a0)), "by-name" if base.get("style") == "dim"
-                                                   else "negative" if base["axis"] < 0 else "non-negative"))
-        if base.get("big"):
-            ctx.count("big_int64")
-            ctx.count("big_int64:" + base["op"])
-            if any(abs(v) > P53 for key in ("args", "args2") for a in (base.get(key) or []) for v in _flat(a)):
-                ctx.count("big_operand_beyond_2^53")
+        _count_case(ctx, base)
         for c in variants:
             st, val = run_impl(c)
             if c.get("batches"):
                 ctx.count("batched_variants")
                 ctx.evaluations += 1
                 if getattr(getattr(backends, c["op"]), "batchable", False):
-                    ctx.count("batch_law_checked:" + c["op"])
-                    if ctx.dist.get("literal_singleton_sampled", 0) < 400 and 1 in c["batches"]:
-                        ctx.count("literal_singleton_sampled")
-                        _literal_singleton(ctx, c)
+                    ctx.count(("batch_law_literal_checked:" if c.get("literal") else "batch_law_checked:") + c["op"] + ":" + dtype_of(c))
                 elif st == "ok":
                     # informative: how often an UNMARKED function breaks the law on the implementation
                     try:
-                        bad = _same(val[0], numpy_reference(c)) is not None
+                        bad = same_values(val[0]["values"], numpy_reference(c)) is not None
                     except Exception:
                         bad = True
                     d = unmarked_fail.setdefault(c["op"], [0, 0])
@@ -966,16 +375,21 @@ def _evaluate(ctx, cases, with_model):
                     d[1] += bad
             if st == "error":
                 ctx.count("impl_errors")
+                ctx.count("impl_error:" + val[0].split(":")[0] + ("" if not val[0].startswith("other") else ":" + val[0].split(":")[1]))
+            elif any(v["reordered"] for v in val):
+                ctx.count("xarray_result_dims_reordered")
             f = oracle(c, st, val)
             if f is not None:
                 key = json.dumps(f[0], sort_keys=True)
+                ctx.count("oracle_fail:" + f[0]["kind"] + (":" + f[0]["cause"] if "cause" in f[0] else ""))
                 if key not in reported:
-                    reported.add(key)
                     small = shrink(c, f[0])
                     st2, val2 = run_impl(small)
                     f2 = oracle(small, st2, val2) or f
+                    reported[key] = 1
                     ctx.violation(f[0], small, f2[1])
-                else:
+                elif reported[key] < 3:
+                    reported[key] += 1
                     ctx.violation(f[0], c, f[1])
             work.append((c, st, val))
     ctx.extra["unmarked_ops_batch_law_fails_on_impl"] = {k: "%d of %d batched evaluations differ from f(all)" % (v[1], v[0])
@@ -987,66 +401,93 @@ def _evaluate(ctx, cases, with_model):
     for c, st, val in work:
         if c.get("batches") and c["op"] in ("std", "stack"):
             continue        # std is printed as its radicand: std-of-stds is not expressible; var covers the composition
-        ls = model_lines(c)
-        index.append((c, st, val, len(lines), len(ls)))
-        lines += ls
+        reqs = [model_request(c, v) for v in range(n_vars(c))]
+        index.append((c, st, val, len(lines), reqs))
+        lines += [r for r in reqs if r is not None]
     res = lean_drive("C15", lines)
     if len(res) != len(lines):
         from ekw.core import InfraError
         raise InfraError("C15 driver answered %d lines for %d" % (len(res), len(lines)))
     ndis = 0
-    for c, st, val, at, n in index:
+    for c, st, val, at, reqs in index:
         ctx.traces += 1
-        impl = canon_impl(st, val, c["op"])
-        model = [canon_model(x) for x in res[at:at + n]]
-        if impl == ["error"]:
-            impl = ["error"] * n
-        if impl != model:
+        impl = canon_impl(st, val)
+        if st == "error" and val[0] == "coords-presence" and mixed_presence(c):
+            # which mixtures of labelled and unlabelled operands xarray's concat refuses is xarray's business (not modelled)
+            ctx.count("tie_skipped:mixed-presence-refused")
+            continue
+        if st == "error":
+            impl = impl * len(reqs)
+        model, pos = [], at
+        for vi, r in enumerate(reqs):
+            if r is None:
+                # the variable lacks the dimension: it must come back unchanged (checked by the oracle); nothing to ask
+                model.append(impl[vi] if vi < len(impl) else None)
+                ctx.count("dataset_variable_untouched")
+            else:
+                model.append(canon_model(res[pos], c))
+                pos += 1
+        # an error of the call is an error for every variable
+        errs = [m for m in model if isinstance(m, dict) and "error" in m]
+        if errs:
+            model = [errs[0]] * len(model)
+        ok = len(impl) == len(model) and all(same_canon(i, m, bool(c.get("approx"))) for i, m in zip(impl, model))
+        if not ok:
             ndis += 1
+            ctx.count("disagree:" + c["op"])
             if ndis <= 20:
-                ctx.disagree("backend-op" + ("-batched" if c.get("batches") else ""), c,
-                             [_show(m) for m in model], [_show(i) for i in impl] if st == "ok" else val)
+                ctx.disagree("backend-op" + ("-batched" if c.get("batches") else ""), c, model, impl if st == "ok" else list(val))
 
 
 def correspond(ctx):
-    n = ctx.budget(900, 12000)
+    n = ctx.budget(600, 12000)
     _evaluate(ctx, _cases(ctx, n), with_model=True)
 
 
 def oracle_only(ctx):
-    n = ctx.budget(900, 12000)
+    n = ctx.budget(600, 12000)
     _evaluate(ctx, _cases(ctx, n), with_model=False)
 
 
 def search(ctx, why):
     """(P) or (T) is broken: look harder for a failing input on the real code.  Targets first: the
-    batch law for every function that carries the mark right now, on all backends; then the
+    batch law for every function that carries the mark right now, on all backends and dtypes; then the
     operations named in the disagreements; then more of the random mix."""
     from earthkit.workflows import backends
+    rng = ctx.rng
     cases = []
     marked = [op for op in VARIADIC if getattr(getattr(backends, op), "batchable", False)]
     for op in marked:
         for be in ("np", "da", "ds"):
             for _ in range(6):
-                c = gen_case(ctx.rng, op, be)
+                c = G.gen_case(rng, op, be)
                 while len(c["args"]) < 3:
-                    c = gen_case(ctx.rng, op, be)
+                    c = G.gen_case(rng, op, be)
                 cases.append(c)
+                cases.append(G.retype(rng, c, rng.choice(["u8", "i32", "bool"])))
     for d in why.get("disagreements", []):
         c = d.get("case") or {}
         if c.get("op") in ALL_OPS:
-            base = {k: v for k, v in c.items() if k != "batches"}
+            base = {k: v for k, v in c.items() if k not in ("batches", "literal")}
             cases.append(base)
-            for _ in range(40):
-                cases.append(gen_case(ctx.rng, c["op"], c.get("backend")))
-    for op in BIG_OPS:
+            be = c.get("backend") if c.get("backend") in ("np", "da", "ds") else None
+            for _ in range(25):
+                cases.append(G.gen_case(rng, c["op"], be))
+                cases.append(G.gen_typed(rng, c["op"], be))
+            fam = (c.get("fam") or "").split(":")[0]
+            g = {"coords": G.gen_coords, "take": G.gen_take2, "broadcast": G.gen_broadcast, "axes": G.gen_axes,
+                 "empty": G.gen_empty, "ds-dims": G.gen_ds_dims, "decoy-axis": G.gen_decoy, "mixed": G.gen_mixed}.get(fam)
+            if g:
+                for _ in range(40):
+                    cases.append(g(rng))
+    for op in G.BIG_OPS:
         for be in ("np", "da", "ds"):
             for _ in range(10):
-                cases.append(gen_big_case(ctx.rng, op, be))
+                cases.append(G.gen_big_case(rng, op, be))
     for _ in range(3):
-        cases += axis_sweep(ctx.rng)
+        cases += G.axis_sweep(rng)
     for _ in range(ctx.budget(400, 4000)):
-        cases.append(gen_big_case(ctx.rng) if ctx.rng.random() < 0.2 else gen_case(ctx.rng))
+        cases.append(G.gen_big_case(rng) if rng.random() < 0.2 else G.gen_case(rng) if rng.random() < 0.4 else G.gen_typed(rng))
     ctx.notes.append("violation search: %d extra cases (marked now: %s)" % (len(cases), marked))
     _evaluate(ctx, cases, with_model=False)
 
@@ -1055,9 +496,9 @@ def replay(payload):
     case = payload["case"]
     print("case:", json.dumps(case))
     st, val = run_impl(case)
-    print("implementation:", st, [v.tolist() for v in val] if st == "ok" else val)
+    print("implementation:", st, [(v["values"].tolist(), str(v["values"].dtype), v["labels"]) for v in val] if st == "ok" else val)
     try:
-        ref = {k: np.asarray(numpy_reference(case, k)).tolist() for k in ["args"] + (["args2"] if case.get("args2") else [])}
+        ref = {v: (np.asarray(numpy_reference(case, v)).tolist(), str(np.asarray(numpy_reference(case, v)).dtype)) for v in range(n_vars(case))}
         print("NumPy on all arguments:", ref)
     except Exception as e:
         print("NumPy raises:", type(e).__name__, e)
